@@ -5,6 +5,8 @@ ascending (provenance), the sweep arithmetic (prover: sorted by start; drop => s
 keep => start >= running end and the running end becomes the kept span's end), and overlap removal
 sits between linting and any consumption of the lints in harper-wasm and harper-cli (dominance).
 """
+import re
+
 from .. import facts
 from ..cfg import Cfg
 from ..common import arg_roots, calls_to, def_of, inst_of, method, target_of
@@ -14,6 +16,7 @@ from ..util import fns_by_key, keyname, place_of, with_closures, calls, norm, la
 LEVEL = "other"
 
 READ_ONLY = {"len", "is_empty", "iter", "deref", "as_slice", "first", "last", "get", "index", "clone"}
+CUTS = {"swap", "swap_remove", "truncate", "remove", "pop", "retain", "retain_mut", "drain", "dedup", "dedup_by", "dedup_by_key", "split_off", "clear"}
 REORDER = {"sort", "sort_by", "sort_by_key", "sort_unstable", "sort_unstable_by", "sort_unstable_by_key", "sort_by_cached_key", "reverse"}
 
 
@@ -74,13 +77,16 @@ def run(ck, tier):
         pv = Prov(f)
         ops = ops_on(f, pv, 1)
         names = sorted({m for m, _, _ in ops})
-        allowed = READ_ONLY | REORDER | {"remove_indices", "deref_mut", "as_mut_slice", "as_mut"}
+        allowed = READ_ONLY | REORDER | CUTS | {"remove_indices", "deref_mut", "as_mut_slice", "as_mut"}
         bad = [(m, t) for m, _, t in ops if m not in allowed]
         for m, t in bad:
             ck.refuted("R-C13-subset", "remove_overlaps:%s" % m, f.loc(t["ln"]), "the lint vector is passed to %s: elements may be invented or altered" % target_of(t))
         if not bad:
-            ck.proved("R-C13-subset", "remove_overlaps:ops", f.span, "operations on `lints`: %s" % names)
-        ck.decide("R-C13-subset", "remove_overlaps:removes-via-remove_indices", "remove_indices" in names, f.span, "elements are dropped only through VecExt::remove_indices")
+            ck.proved("R-C13-subset", "remove_overlaps:ops", f.span, "operations on `lints`: %s (queries, reordering, cutting: none can invent or alter an element)" % names)
+        if "remove_indices" in names and not (set(names) & CUTS):
+            ck.proved("R-C13-subset", "remove_overlaps:removes-via-remove_indices", f.span, "elements are dropped only through VecExt::remove_indices")
+        else:
+            _other_removal(ck, p, f, pv, ops)
         # closures (the sort key) take the element by shared reference: nothing to check beyond types
         # ---- sorted queue
         cfg = Cfg(f)
@@ -251,7 +257,20 @@ def _sweep(ck, p, byk):
             kdetail = "leading key component is l.span.start: %s" % ok_key
     ck.decide(rule, "remove_overlaps:sort-key", ok_key, f.loc(stt["ln"]), kdetail)
     # ---- the loop, its element, the running end
-    nexts = [(bi, t) for bi, t in f.calls() if method(t) == "next" and cfg.dominates(sb, bi)]
+    def _over_lints(op, depth=0):
+        """receiver chain of an iterator operand ends in the lint vector (argument 1)"""
+        if _base_local(f, pv, op) == 1:
+            return True
+        for o in flatten(pv.trace_operand(op)):
+            if o == ("arg", 1):
+                return True
+            if o[0] == "call" and depth < 8:
+                ct = f.blocks[o[1]]["t"]
+                if ct["args"] and _over_lints(ct["args"][0], depth + 1):
+                    return True
+        return False
+    # the sweep is the loop after the sort whose next() advances an iterator over the lint vector itself
+    nexts = [(bi, t) for bi, t in f.calls() if method(t) == "next" and cfg.dominates(sb, bi) and _over_lints(t["args"][0])]
     loops = cfg.natural_loops()
     cand = [(h, body) for h, body in loops.items() if any(bi in body for bi, _ in nexts)]
     if len(cand) != 1 or len(nexts) != 1:
@@ -285,7 +304,12 @@ def _sweep(ck, p, byk):
     init0 = len(inits) == 1 and inits[0]["rv"]["k"] == "use" and "k" in inits[0]["rv"]["op"] and str(inits[0]["rv"]["op"]["k"].get("int")) == "0"
     rem = [(bi, t) for bi, t in f.calls() if method(t) == "remove_indices"]
     qlocal = _base_local(f, pv, rem[0][1]["args"][1]) if rem else None
-    drops = [(bi, t) for bi, t in f.calls() if bi in body and method(t) == "push_back" and _base_local(f, pv, t["args"][0]) == qlocal]
+    # a drop site records the current position in a container of positions: the removal queue when remove_indices is
+    # used, otherwise any Vec/VecDeque<usize> that is written inside the sweep
+    def _is_pos_container(l):
+        return l is not None and bool(re.search(r"(Vec|VecDeque)<usize>", f.local_tystr(l)))
+    drops = [(bi, t) for bi, t in f.calls() if bi in body and method(t) in ("push_back", "push") and len(t["args"]) > 1 and
+             (_base_local(f, pv, t["args"][0]) == qlocal if qlocal is not None else _is_pos_container(_base_local(f, pv, t["args"][0])))]
     ck.decide(rule, "remove_overlaps:init", init0, f.span, "the running end `%s` starts at 0: %s" % (f.debug_names().get(R), init0))
     if not drops or not keeps:
         ck.refuted(rule, "anchor-missing:sweep-sites", f.span, "drop sites (push_back onto the removal queue): %d, keep sites (assignments to the running end): %d" % (len(drops), len(keeps)))
@@ -380,3 +404,31 @@ def _sweep(ck, p, byk):
             if place_of(sx["rv"]["op"])[0] == E and _field_path(place_of(sx["rv"]["op"])) == ["span", "end"]:
                 src_ok = True
         ck.decide(rule, "remove_overlaps:keep-sets-end", src_ok, f.loc(sx["ln"]), "on the keep path the running end becomes the kept lint's span.end: %s" % src_ok)
+
+
+def _other_removal(ck, p, f, pv, ops):
+    """remove_overlaps drops elements some other way than VecExt::remove_indices.  The one form decided here: park the
+    dropped elements at the back with swap(i, len-1-k) and truncate - right only when the indices are consumed from the
+    largest to the smallest."""
+    from ..common import arg_roots
+    key = "remove_overlaps:removes-via-remove_indices"
+    swaps = [(bi, t) for m, bi, t in ops if m == "swap"]
+    truncs = [(bi, t) for m, bi, t in ops if m == "truncate"]
+    cfg = Cfg(f)
+    loops = cfg.natural_loops()
+    if swaps and truncs:
+        bi, t = swaps[0]
+        inloop = [body for body in loops.values() if bi in body]
+        roots = set()
+        for a in t["args"][1:3]:
+            roots |= {last(norm(o[3] or o[2] or "")) for o in arg_roots(f, pv, a) if o[0] == "call"}
+        # is the index container filled inside a forward sweep (enumerate) and read front to back?
+        descending = bool(roots & {"rev", "pop", "next_back", "pop_back"})
+        filled_forward = any(method(t2) in ("push", "push_back") and any(method(f.blocks[o[1]]["t"]) == "enumerate" for o in arg_roots(f, pv, t2["args"][1]) if o[0] == "call")
+                             for _, t2 in f.calls() if len(t2["args"]) > 1)
+        if inloop and not descending and filled_forward:
+            ck.refuted("R-C13-subset", key, f.loc(t["ln"]), "dropped lints are swapped to the back one by one in ascending index order and cut off with truncate: a swap can bring an element that is still waiting to be dropped (it sits among the last positions) to an index already passed, so it survives and a lint the sweep kept is cut off instead - two kept lints can overlap and a lint nothing overlaps can disappear")
+            return
+        ck.undecided("R-C13-subset", key, f.loc(t["ln"]), "elements are dropped by swap + truncate (%s order); whether the positions cut off are exactly the ones the sweep marked is not decided" % ("descending" if descending else "unrecognised"))
+        return
+    ck.refuted("R-C13-subset", key, f.span, "elements are not dropped through VecExt::remove_indices and the removal form (%s) is not one this rule can follow: fail closed" % sorted({m for m, _, _ in ops if m in CUTS}))
